@@ -195,6 +195,11 @@ class SimSignal:
     def alarm(n):
         return current().alarm(n)
 
+    @staticmethod
+    def getsignal(signum):
+        h = current().alarm_handler
+        return h if h is not None else SimSignal.SIG_DFL
+
 
 def _sim_id(obj):
     return current().sim_id(obj)
